@@ -170,6 +170,7 @@ func spec_sameCalls(a, b []spec_Call) bool {
 
 //@ func gengoCtx.doGenerate
 //@   props C06 C02 C04
+//@   onpanic eq(spec_fx(), old(spec_fx()))
 //@   requires c != nil && c.l != nil && g != nil && c.universe != nil && c.args != nil
 //@   requires c.pkg != nil ==> forall n string :: has(c.pkg.Types(), n) ==> c.pkg.Types()[n] != nil && spec_docOK(c, c.pkg.Types()[n])
 //@   assigns *
@@ -250,6 +251,7 @@ func spec_lastCall() spec_Call { return spec_calls()[len(spec_calls())-1] }
 
 //@ func gengoCtx.doGenerateNamedType
 //@   props C02 C06 C07
+//@   onpanic eq(spec_fx(), old(spec_fx()))
 //@   requires c != nil && c.l != nil && g != nil && x != nil
 //@   assigns *
 //@   preserves pkg/gengo. pkg/types.Universe. go/ast. go/token. golang.org/x/tools/go/packages. except pkg/gengo.gengoCtx.defers, pkg/gengo.gengoCtx.ignore
@@ -265,6 +267,7 @@ func spec_lastCall() spec_Call { return spec_calls()[len(spec_calls())-1] }
 
 //@ func gengoCtx.doGenerateAliasType
 //@   props C02 C06
+//@   onpanic eq(spec_fx(), old(spec_fx()))
 //@   requires c != nil && c.l != nil && g != nil && x != nil
 //@   assigns *
 //@   preserves pkg/gengo. pkg/types.Universe. go/ast. go/token. golang.org/x/tools/go/packages. except pkg/gengo.gengoCtx.defers, pkg/gengo.gengoCtx.ignore
@@ -287,6 +290,7 @@ func spec_isNewer(g Generator) bool { _, ok := g.(GeneratorNewer); return ok }
 
 //@ func gengoCtx.New
 //@   props C05
+//@   onpanic eq(spec_fx(), old(spec_fx()))
 //@   requires generator != nil
 //@   assigns *
 //@   preserves pkg/gengo. pkg/types.Universe. go/ast. go/token. golang.org/x/tools/go/packages. except pkg/gengo.gengoCtx.defers, pkg/gengo.gengoCtx.ignore
@@ -463,6 +467,8 @@ func spec_removedIn(fx []spec_Effect, x string) bool {
 //@   ensures len(spec_calls()) > len(old(spec_calls())) ==> spec_callMark() == len(old(spec_fx()))
 //@   ensures forall i int :: len(old(spec_fx())) <= i && i < len(spec_fx()) ==> spec_isOutput(spec_fx()[i], c.universe.Package(pkg).SourceDir(), c.args.OutputFileBaseName) || spec_isStaleRemoval(spec_fx()[i], c.universe.Package(pkg), c.args.OutputFileBaseName)
 //@   ensures forall i int, j int :: len(old(spec_calls())) <= i && i < len(spec_calls()) && 0 <= j && j < len(generators) && (spec_calls()[i].Kind == spec_GenType || spec_calls()[i].Kind == spec_GenAlias) ==> spec_calls()[i].Gen != generators[j]
+//@   onpanic eq(spec_fx(), old(spec_fx()))
+//@   note (onpanic) user code (a generator, a custom constructor, a deferred callback) may PANIC instead of returning: the panic unwinds through pkgExecute's deferred logging calls and leaves the effect log as it was on entry - nothing has been written or removed yet when user code runs
 //@   ensures finalErr == nil && old(c.pkgChanged(pkg)) ==> c.universe.Package(pkg) != nil && (forall i int :: 0 <= i && i < len(c.universe.Package(pkg).Files()) && strings.HasPrefix(filepath.Base(spec_fname(c.universe.Package(pkg), i)), c.args.OutputFileBaseName+".") ==> spec_openedIn(spec_fx(), spec_join(c.universe.Package(pkg).SourceDir(), filepath.Base(spec_fname(c.universe.Package(pkg), i)))) || spec_existsIn(0, len(c.universe.Package(pkg).Files()), func(j int) bool { return filepath.Base(spec_fname(c.universe.Package(pkg), j)) == filepath.Base(spec_fname(c.universe.Package(pkg), i)) && spec_removedIn(spec_fx(), spec_fname(c.universe.Package(pkg), j)) }))
 //@   note (clause above, C07 "stale <base>.* files are removed") after a successful, non-cached package run every source file of the package whose base name starts with <base>. has either been rewritten (truncating open of <SourceDir>/<that base name>) or removed
 //@   loop 1 invariant forall j int :: 0 <= j && j < it1 && strings.HasPrefix(filepath.Base(spec_fname(p, j)), c.args.OutputFileBaseName+".") ==> has(generatedFiles, filepath.Base(spec_fname(p, j)))
@@ -549,6 +555,8 @@ func spec_direct(u *gengotypes.Universe, q string) bool { return gengotypes.Spec
 //@   note the two clauses above say: the run's effects are a block of package effects followed by a block of effects on <module>/gengo.sum (no package effect after the first non-package effect)
 //@   ensures len(spec_calls()) >= len(old(spec_calls())) && eq(spec_calls()[:len(old(spec_calls()))], old(spec_calls()))
 //@   ensures forall i int :: len(old(spec_calls())) <= i && i < len(spec_calls()) && spec_callFailed(spec_calls()[i]) ==> result != nil && i == len(spec_calls())-1 && (forall j int :: len(old(spec_fx())) <= j && j < len(spec_fx()) ==> spec_isPkgEffect(spec_fx()[j], c.universe, c.args.OutputFileBaseName, c.args.All))
+//@   onpanic len(spec_fx()) >= len(old(spec_fx())) && eq(spec_fx()[:len(old(spec_fx()))], old(spec_fx())) && (forall i int :: len(old(spec_fx())) <= i && i < len(spec_fx()) ==> spec_isPkgEffect(spec_fx()[i], c.universe, c.args.OutputFileBaseName, c.args.All))
+//@   note (onpanic, C02 "a process that dies part-way through a run leaves gengo.sum untouched") when user code panics, the panic unwinds through Execute (running whatever Execute deferred) and every effect of the run so far is a package effect: gengo.sum has not been rewritten
 //@   note the second clause: when a generator or deferred callback failed, Execute returns an error, runs no further user code, and every effect of the run is a package effect: gengo.sum is NOT rewritten (Save is not reached)
 //@   loop 1 invariant c.args != nil && c.universe != nil && eq(spec_fx(), old(spec_fx())) && eq(spec_calls(), old(spec_calls()))
 //@   loop 2 invariant c.args != nil && c.universe != nil && c.l != nil && len(spec_fx()) >= len(old(spec_fx())) && eq(spec_fx()[:len(old(spec_fx()))], old(spec_fx()))
